@@ -359,6 +359,11 @@ fn inject_comments(d: &mut Draw, text: &str) -> String {
 }
 
 fn design_case(d: &mut Draw, cfg: &GenCfg, cycles: usize) -> Outcome {
+    // narrow designs make range boundaries of `inside` / `case` reachable by the stimulus
+    let mut cfg = cfg.clone();
+    cfg.max_width = [cfg.max_width, 4, 6, 3][d.weighted(&[2, 2, 1, 1])];
+    let cycles = if cfg.max_width <= 6 { cycles * 3 } else { cycles };
+    let cfg = &cfg;
     let g = gen_design(d, cfg);
     let mut text = inject_comments(d, &print_design(&g.design));
     let crlf = d.chance(1, 5);
@@ -375,7 +380,26 @@ fn design_case(d: &mut Draw, cfg: &GenCfg, cycles: usize) -> Outcome {
     if k6 && var.expand_inside && !show_known {
         return Outcome::skip("excluded: design contains the shape of known finding exclusive-range-bound-widens-comparison");
     }
-    let stim = gen_stimulus(d, &g.design, cycles);
+    let mut stim = gen_stimulus(d, &g.design, cycles);
+    // small combinational designs: every input vector (range boundaries included)
+    let total_bits: usize = stim.inputs.iter().map(|p| p.width).sum();
+    if stim.clock.is_none() && total_bits <= 12 && var.expand_inside {
+        stim.steps = (0..(1u64 << total_bits))
+            .map(|k| {
+                let mut rest = k;
+                let values = stim
+                    .inputs
+                    .iter()
+                    .map(|p| {
+                        let v = rest & ((1u64 << p.width) - 1);
+                        rest >>= p.width;
+                        num_bigint::BigUint::from(v)
+                    })
+                    .collect();
+                vdesign::StimStep { reset: false, values }
+            })
+            .collect();
+    }
     let v = match judge(&text, &var) {
         Err(why) => return Outcome::skip(why),
         Ok(Err((sig, msg, input))) => return Outcome::fail(sig, msg, input),
@@ -393,7 +417,9 @@ fn design_case(d: &mut Draw, cfg: &GenCfg, cycles: usize) -> Outcome {
             reset: stim.reset.clone().map(|r| (r, false)),
         };
         let run = |sv: &str| -> Result<Vec<Vec<vsv::Bv>>, vsv::Unsupported> {
-            let mut sim = Sim::from_sv(&[sv], "prj_Top")?;
+            // selects of scalars (a known C01 finding of the emitter) are read as `[0:0]`
+            let parsed = vsv::parse::parse(sv)?;
+            let mut sim = Sim::from_parsed_opts(&[parsed], "prj_Top", true)?;
             c01::run_sv(&mut sim, &pins, &stim)
         };
         match (run(&v.base_sv), run(&v.var_sv)) {
@@ -544,7 +570,7 @@ pub fn run(ctx: &Ctx) {
     ctx.note("corpus_files_usable", json!(files.len()));
     ctx.note("corpus_files_rejected", json!(rejected));
     let n_corpus = ctx.scale(250, 8000);
-    let n_design = ctx.scale(250, 12_000);
+    let n_design = ctx.scale(400, 12_000);
     if !files.is_empty() {
         let files = std::sync::Arc::new(files);
         ctx.run("corpus", CaseCfg::cases(n_corpus).choices(64).stack_mb(16), move |d: &mut Draw| corpus_case(d, &files));
